@@ -37,6 +37,8 @@ fn main() {
 const HOOK_PROBES: &[(&str, &str, &str)] = &[
     ("has_h3", "ddnnf/anomalies/config_creation.rs", "pub fn verif_set_sched_callback"),
     ("verif_h7", "ddnnf/anomalies/t_wise_sampling.rs", "pub fn verif_t_indices"),
+    // H9: order-decision log of the t-wise sampler (replayed by chk_c09 in the extracted model)
+    ("verif_h9", "ddnnf/anomalies/t_wise_sampling.rs", "pub fn verif_twise_log_start"),
     // H8: clause cache view (the C12 harness calls it cfg has_h7 for historical reasons)
     ("has_h7", "ddnnf/clause_cache.rs", "VerifCacheView"),
 ];
